@@ -11,17 +11,17 @@ U = 100
 DP = 2
 
 
-def q(x):
-    return int(round(x * U))
+def q(x, u=U):
+    return int(round(x * u))
 
 
-def q3(p):
-    return [q(c) for c in p]
+def q3(p, u=U):
+    return [q(c, u) for c in p]
 
 
-def _builder(res, ccw, start):
+def _builder(res, ccw, start, dp=DP):
     from gscrib import GCodeBuilder
-    g = GCodeBuilder(decimal_places=DP, line_endings="\\n")
+    g = GCodeBuilder(decimal_places=dp, line_endings="\\n")
     try:
         while True:
             g.remove_writer(g.get_writer(0))
@@ -78,7 +78,8 @@ def _call(g, req, rel):
 
 
 def _run(req, res, rel):
-    g, rw = _builder(res, req["ccw"], req["start"])
+    dp = req.get("dp", DP)
+    g, rw = _builder(res, req["ccw"], req["start"], dp)
     if rel:
         g.set_distance_mode("relative")
         rw.take()
@@ -91,21 +92,37 @@ def _run(req, res, rel):
     for ch in rw.take():
         text = ch.decode().rstrip("\n")
         code, _ = split_comment(text)
-        lines.append({"ws": [{"l": w["l"], "v": w["v"]} for w in tokenize(code, U)]})
+        lines.append({"ws": [{"l": w["l"], "v": w["v"]} for w in tokenize(code, 10 ** dp)]})
     return out, lines
 
 
 def record(req):
     res = req["res"]
+    u = 10 ** req.get("dp", DP)
+    only = bool(req.get("only_abs", False))
     outA, la = _run(req, res, False)
-    outR, lr = _run(req, res, True)
-    outH, lh = _run(req, res / 2.0, False)
-    ev = {"shape": req["shape"], "ccw": bool(req["ccw"]), "res": q(res), "start": q3(req["start"]), "target": q3(req["target"]),
-          "centers": [q3(c) for c in req.get("centers", [req.get("center", req["start"])])], "r": q(req.get("r", 0.0)),
-          "turns": int(req.get("turns", 1)), "far": bool(req.get("far", False)), "len": q(req.get("len", 0.0)),
-          "minor": req.get("minor", "any"), "controls": [q3(p) for p in req.get("controls", [])],
+    outR, lr = ("ok", []) if only else _run(req, res, True)
+    outH, lh = ("ok", []) if only else _run(req, res / 2.0, False)
+    ev = {"shape": req["shape"], "ccw": bool(req["ccw"]), "res": q(res, u), "start": q3(req["start"], u), "target": q3(req["target"], u),
+          "centers": [q3(c, u) for c in req.get("centers", [req.get("center", req["start"])])], "r": q(req.get("r", 0.0), u),
+          "turns": int(req.get("turns", 1)), "far": bool(req.get("far", False)), "len": q(req.get("len", 0.0), u),
+          "minor": req.get("minor", "any"), "controls": [q3(p, u) for p in req.get("controls", [])], "onlyA": only,
           "outA": outA, "outR": outR, "outH": outH, "linesA": la, "linesR": lr, "linesH": lh}
     return ev
+
+
+def gen_long(rng):
+    """A circle / arc whose length is thousands of resolutions (C12: 'four orders of magnitude of length/resolution'),
+    recorded at 3 decimals, absolute run only."""
+    ratio = rng.choice([1300, 2600, 4100, 6283, 8000])
+    r = rng.uniform(18, 26)
+    ccw = rng.random() < 0.5
+    a0 = rng.uniform(-math.pi, math.pi)
+    s = [round(rng.uniform(-2, 2), 3), round(rng.uniform(-2, 2), 3), 0.0]
+    c = [s[0] - r * math.cos(a0), s[1] - r * math.sin(a0), 0.0]
+    res = round(2 * math.pi * r / ratio, 4)
+    return {"shape": "circle", "res": res, "ccw": ccw, "start": s, "target": list(s), "center": c, "centers": [c], "r": r,
+            "hasz": False, "far": True, "len": 2 * math.pi * r, "turns": 1, "dp": 3, "only_abs": True}
 
 
 # ----------------------------------------------------------------------------- request generators
